@@ -46,9 +46,12 @@ def _conds(tier):
         script("XAR", 2)
         script("R", 3, time="float")
         script("R", 3, time="duration")
+        script("A", 3, time="bigint", tmax=3)      # int clock at 2**53 + 0..3: concrete ints that collide as doubles
         for t in ("int", "float", "duration"):
             conds.append(Cond(f"cmp/{t}", "c01", "h_cmp", {"VF_TIME": t, "VF_TMAX": 2 if t == "duration" else 8}, 240))
     else:
+        script("A", 4, time="bigint", tmax=4, timeout=1500)
+        script("R", 4, time="bigint", tmax=3, timeout=1500)
         for k in range(5):
             script("R", 5, fixk=k, timeout=1500)
         for n in (5, 6, 7):
